@@ -400,6 +400,9 @@ class Interp:
             yield b, False
 
     def oblige(self, st, name, goal, tag='top', meta=None, split=False):
+        lib = sorted({str(e.data.get('name')) for e in st.events if e.kind == 'unknown_state_used' and str(e.data.get('name', '')).startswith('module:')})[:8]
+        if lib:
+            meta = dict(meta or {}, library_unknowns_on_path=lib)
         if split and z3.is_and(goal) and goal.num_args() > 1:
             for j, c in enumerate(goal.children()):
                 self.obligations.append(Obligation(f'{self.unit_name}.{name}/{j}', st.pc, c, tag, meta))
@@ -568,6 +571,30 @@ class Interp:
                 # an imported name, a module-level object that is not a literal, or a class of the module, none of which a
                 # sidecar models: an unknown object
                 v = Unknown(f'module:{node.id}')
+                if node.id in assigned:
+                    # a module-level name bound once, at import, to a non-literal expression (`X = f(b'')`): evaluate the initialiser
+                    # here - taken only when it has exactly one outcome and the value is immutable (then "computed at import" and
+                    # "computed at use" cannot be told apart)
+                    depth = self.__dict__.setdefault('_module_init_depth', 0)
+                    if depth < 3:
+                        self._module_init_depth = depth + 1
+                        try:
+                            probe = st.copy()
+                            saved = probe.cur
+                            probe.cur = 0
+                            n_ev, n_pc = len(probe.events), len(probe.pc)
+                            outs = list(self.ev(source.module_assign(rel, node.id), probe))
+                            if len(outs) == 1 and not isinstance(outs[0][1], Raised) and isinstance(outs[0][1], (SV, str, bytes, int, float, bool)) \
+                                    and not isinstance(outs[0][1], Unknown) \
+                                    and not any(e.kind != 'typing' for e in outs[0][0].events[n_ev:]):
+                                for c in outs[0][0].pc[n_pc:]:
+                                    st.assume(c)            # definitional facts of the value (e.g. hash of the literal)
+                                yield st, outs[0][1]
+                                return
+                        except (Unsupported, z3.Z3Exception, KeyError, AttributeError, TypeError, ValueError):
+                            pass
+                        finally:
+                            self._module_init_depth = depth
                 helper = self._imported_repo_helper(rel, tree, node.id)
                 if helper is not None:
                     # a plain function imported from a sibling module of the repository (e.g. a helper a change moved there): the REAL
